@@ -30,6 +30,10 @@ E2E_RULE = ("end-to-end scenarios: the real client stack (Conn, or Transport, or
 E2E_MODELLED = ("the composition is not modelled as a product automaton: the end-to-end statement is derived from K's provenance theorem, S's own-reply construction, the wire round-trip and the framing theorem under the linking hypothesis stated in Props/C01; "
                 "real networks, TLS, netpoll and the OS are outside every model")
 
+POLL_RULE = ("poll mode: the real Server.ListenWithOptions over a fake socket.Socket whose listener plays netpoll - scripted connections, 1..4 workers calling the serve callback concurrently for one connection, "
+             "a header encoder that delays the decoding of chosen requests (widening the window between reading and dispatching a frame), bursts, stream opens, EOF; monitors: executed once, answered once, "
+             "pipelining order and seriality per connection, stream handlers released at EOF; direct I/O x pipelining; monitors only (no model stream)")
+
 POOL_RULE = ("scripted scenarios against the real *rpc.Transport whose Dial returns real Conns over an in-memory scripted server: sequential and held (long-running) calls of four forms to three addresses, "
              "server kill/revive, idle phases (short / medium: KeepAlive passes / long: IdleConnTimeout passes), CloseIdleConnections, Close, limits in {-1,0,1,2,3}x{-1,0,1,2,5}; "
              "after every action the pool snapshot (verif accessor), open sockets, dial count and call outcomes are compared with the Lean pool automaton; distinct = (limits, action sequence)")
@@ -72,9 +76,9 @@ PROPS = {
     },
     "C03": {"components": [{"name": "conn", "driver": "conn", "streams": ["k"]}], "rule": CONN_RULE, "trusted_base": TB_COMMON, "modelled": CONN_MODELLED,
             "assumptions": ["'within bounded time' is a quiescence theorem plus a 3 s deadline on every blocking call in the correspondence runs", "closing a real socket unblocks a blocked Read/Write (OS)"]},
-    "C05": {"components": [{"name": "conn", "driver": "conn", "streams": ["k"]}, {"name": "server", "driver": "server", "streams": ["s"]}],
-            "rule": CONN_RULE + " | " + SRV_RULE, "trusted_base": TB_COMMON, "modelled": CONN_MODELLED + " | " + SRV_MODELLED,
-            "assumptions": ["client order is over completions determined by the connection (responses processed in arrival order, failures, refusals, sweep in sequence order); it equals issue order when the server answers in request order", "poll mode is exercised by the end-to-end runs only"]},
+    "C05": {"components": [{"name": "conn", "driver": "conn", "streams": ["k"]}, {"name": "server", "driver": "server", "streams": ["s"]}, {"name": "poll", "driver": "", "streams": []}],
+            "rule": CONN_RULE + " | " + SRV_RULE + " | " + POLL_RULE, "trusted_base": TB_COMMON, "modelled": CONN_MODELLED + " | " + SRV_MODELLED,
+            "assumptions": ["client order is over completions determined by the connection (responses processed in arrival order, failures, refusals, sweep in sequence order); it equals issue order when the server answers in request order", "poll mode: S is the same automaton by a fact read from listen() (receive lock held from ReadMessage to dispatch); exercised by the poll component with concurrent workers and by the end-to-end runs"]},
     "C06": {"components": [{"name": "conn", "driver": "conn", "streams": ["k"]}, {"name": "server", "driver": "server", "streams": ["s"]}],
             "rule": CONN_RULE + " | " + SRV_RULE, "trusted_base": TB_COMMON, "modelled": CONN_MODELLED + " | " + SRV_MODELLED, "assumptions": ["error texts are non-empty"]},
     "C19": {"components": [{"name": "conn", "driver": "conn", "streams": ["k"]}], "rule": CONN_RULE, "trusted_base": TB_COMMON, "modelled": CONN_MODELLED,
@@ -105,11 +109,11 @@ PROPS = {
     "C09": {"components": [{"name": "stream", "driver": "stream", "streams": ["t"]}, {"name": "e2e", "driver": "e2e", "streams": ["e"]}],
             "rule": STREAM_RULE + " | " + E2E_RULE, "trusted_base": TB_COMMON, "modelled": STREAM_MODELLED,
             "assumptions": ["messages in flight when the client closes the stream or the connection is cut may be dropped (the property speaks of an open stream)", "one reader at a time per stream end in the scripted scenarios", "corruption of payload bytes is covered by the wire and framing theorems (C07, C01) and by end-to-end payload checks, not by T (payloads are abstract values)"]},
-    "C10": {"components": [{"name": "stream", "driver": "stream", "streams": ["t"]}, {"name": "e2e", "driver": "e2e", "streams": ["e"]}],
+    "C10": {"components": [{"name": "stream", "driver": "stream", "streams": ["t"]}, {"name": "poll", "driver": "", "streams": []}, {"name": "e2e", "driver": "e2e", "streams": ["e"]}],
             "rule": STREAM_RULE + " | " + E2E_RULE + "; after teardown in either order: handler exit log, goroutine profile", "trusted_base": TB_COMMON, "modelled": STREAM_MODELLED,
             "assumptions": ["'promptly' is a quiescence statement (no reader parked on a stopped stream in any reachable state) plus 2-3 s deadlines in the harness", "poll mode: per-connection teardown is the same code path by a fact read from listen(); Server.Close in poll mode with the connection still open never reaches it (known finding D17)"]},
-    "C04": {"components": [{"name": "server", "driver": "server", "streams": ["s"]}, {"name": "stream", "driver": "stream", "streams": ["t"]}, {"name": "pool", "driver": "pool", "streams": ["p"]}, {"name": "e2e", "driver": "e2e", "streams": ["e"]}],
-            "rule": SRV_RULE + " | " + STREAM_RULE + " | " + POOL_RULE + " (the scripted server counts how often the request of each call reaches it, incl. connections dropped under a call while the server stays reachable) | " + E2E_RULE,
+    "C04": {"components": [{"name": "server", "driver": "server", "streams": ["s"]}, {"name": "stream", "driver": "stream", "streams": ["t"]}, {"name": "pool", "driver": "pool", "streams": ["p"]}, {"name": "poll", "driver": "", "streams": []}, {"name": "e2e", "driver": "e2e", "streams": ["e"]}],
+            "rule": SRV_RULE + " | " + POLL_RULE + " | " + STREAM_RULE + " | " + POOL_RULE + " (the scripted server counts how often the request of each call reaches it, incl. connections dropped under a call while the server stays reachable) | " + E2E_RULE,
             "trusted_base": TB_POOL, "modelled": SRV_MODELLED + " | " + E2E_MODELLED,
             "assumptions": ["the peer uses each sequence number once per connection (guaranteed by the client half: K's pending-table invariant)", "Transport/Client never retry: in the pool automaton P a call is carried by exactly one connection (model structure) and the scripted server counts arrivals per call; end-to-end execution counts; not a separate theorem"]},
     "C08": {
